@@ -3,56 +3,76 @@ import BppModel.Hmm
 /-
 Driver for C13 (HMM likelihoods).  Registers: the staged tables (`states`/`trans`/`eq`/`emis`)
 and named likelihood objects built from them.  The model answer of every query comes from the
-model of the cached object; the verdict evaluates, on the *implementation's* answer,
- * `path_sum`   : log-likelihood = log of the exact (Rat) sum over all hidden paths
-                  (`Hmm.pathSum` by enumeration for small instances, `Hmm.fwdU` — equal to it by
-                  theorem `forward_is_path_sum` — for longer ones), computed from the *current*
-                  tables, i.e. what a fresh object would have to answer (history independence);
- * `cross_algo` : the algorithms agree (op `agree`);
+model of the cached object (`Hmm.RescObj` / `Hmm.LowObj` / `Hmm.LogObj`); the verdict evaluates, on
+the *implementation's* answer,
+ * `path_sum`            : log-likelihood = log of the exact (Rat) sum over all hidden paths
+                           (`Hmm.pathSum` by enumeration for small instances, `Hmm.fwdU` — equal to it
+                           by theorem `forward_is_path_sum` — for longer ones), from the *current* tables;
+ * `cross_algo`          : the algorithms agree (op `agree`);
+ * `posterior_prob`      : posterior rows are ≥ 0 and sum to 1 (likelihood > 0, valid break points);
+ * `posterior_marginal`  : posteriors equal the exact path marginals (small instances);
+ * `site_likelihood`     : per-site likelihoods equal Σ_j posterior·emission of the exact marginals;
+ * `history_independent` : the answer is bit-identical to what the cache-free specification
+                           (`Hmm.rescSpec` / `Hmm.logSpec`, a fresh object) gives for the current tables.
 -/
 namespace Bpp.Drive.C13
 open Bpp Bpp.Proto Bpp.Hmm
 
-structure Tables where
+structure DTables where
   n : Nat := 0
   P : Array Float := #[]
   F : Array Float := #[]
   E : Array Float := #[]
 deriving Inhabited
 
-def Tables.T (t : Tables) : Nat := if t.n == 0 then 0 else t.E.size / t.n
+def DTables.T (t : DTables) : Nat := if t.n == 0 then 0 else t.E.size / t.n
 
-def Tables.params (t : Tables) : Params Float :=
-  { n := t.n, P := fun i j => t.P[i * t.n + j]!, pi := fun k => t.F[k]! }
-def Tables.emis (t : Tables) (s : Nat) : Emis Float := fun j => t.E[s * t.n + j]!
-/-- emissions of the sites 1 … T-1 -/
-def Tables.rest (t : Tables) : List (Emis Float) := (List.range (t.T - 1)).map (fun s => t.emis (s + 1))
+def ename (s j : Nat) : String := s!"e{s}_{j}"
+
+/-- the model's view of the tables -/
+def DTables.model (t : DTables) : Tables Float :=
+  let n := t.n; let E := t.E
+  { p := { n := n, P := fun i j => t.P[i * n + j]!, pi := fun k => t.F[k]! }
+    e0 := fun j => E[j]!
+    es := (List.range (t.T - 1)).map (fun s => fun j => E[(s + 1) * n + j]!)
+    -- the harness' emission object: derivative with respect to e<s>_<j> is the indicator of that entry
+    dE := fun var => (fun j => if var == ename 0 j then 1.0 else 0.0,
+                      (List.range (t.T - 1)).map (fun s => fun j => if var == ename (s + 1) j then 1.0 else 0.0)) }
 
 /-! exact copies of the tables -/
 def ratOf (x : Float) : Rat := (floatToRat? x).getD 0
-def Tables.paramsQ (t : Tables) : Params Rat :=
+def DTables.paramsQ (t : DTables) : Params Rat :=
   let P := t.P.map ratOf; let F := t.F.map ratOf
   { n := t.n, P := fun i j => P[i * t.n + j]!, pi := fun k => F[k]! }
-def Tables.restQ (t : Tables) : Emis Rat × List (Emis Rat) :=
+def DTables.emisQ (t : DTables) : Emis Rat × List (Emis Rat) :=
   let E := t.E.map ratOf
   (fun j => E[j]!, (List.range (t.T - 1)).map (fun s => fun j => E[(s + 1) * t.n + j]!))
 
-def Tables.finite (t : Tables) : Bool :=
+def DTables.finite (t : DTables) : Bool :=
   (t.P.all Float.isFinite) && (t.F.all Float.isFinite) && (t.E.all Float.isFinite)
-def Tables.nonneg (t : Tables) : Bool :=
+def DTables.nonneg (t : DTables) : Bool :=
   t.finite && (t.P.all (· ≥ 0)) && (t.F.all (· ≥ 0)) && (t.E.all (· ≥ 0))
 
+inductive Core where
+  | resc (o : RescObj Float)
+  | low (o : LowObj Float)
+  | log (o : LogObj Float)
+
 structure Obj where
-  algo : String
-  chunk : Nat
+  core : Core
   withParams : Bool
-  tab : Tables
-  bps : List Nat
-  logLik : Float
-deriving Inhabited
+  tab : DTables
+  /-- an update raised since the last successful recomputation: the object is outside the
+  hypotheses of `history_independent` -/
+  stale : Bool := false
+
+def Obj.bps (o : Obj) : List Nat :=
+  match o.core with | .resc r => r.bps | .low l => l.bps | .log g => g.bps
+def Obj.logLik (o : Obj) : Float :=
+  match o.core with | .resc r => r.fw.logLik | .low l => l.logLik | .log g => g.fw.ll
 
 structure St where
-  stage : Tables := {}
+  stage : DTables := {}
   objs : List (String × Obj) := []
 
 def St.get? (s : St) (k : String) : Option Obj := (s.objs.find? (·.1 == k)).map (·.2)
@@ -63,17 +83,12 @@ def hx (x : Float) : String := Hex.ofFloatCanon x
 def hxs (l : List Float) : String := if l.isEmpty then "-" else " ".intercalate (l.map hx)
 def floats? (l : List String) : Option (Array Float) := (l.mapM Hex.float?).map List.toArray
 def implFloat? (s : String) : Option Float := if s == "nan" then some (0.0 / 0.0) else Hex.float? s
+def implFloats? (l : List String) : Option (List Float) := if l == ["-"] then some [] else l.mapM implFloat?
 
-/-! ## computeForward_ of each class on the current tables -/
-
-/-- `none` = the call throws (negative or NaN transition probability, rescaled class only) -/
-def compute (algo : String) (chunk : Nat) (t : Tables) (bps : List Nat) : Option Float :=
-  let p := t.params
-  let sites := mkSites t.rest bps
-  match algo with
-  | "resc" => if transOk p then some (rescForward p (t.emis 0) sites).logLik else none
-  | "low" => some (lowForward p chunk (t.emis 0) sites)
-  | _ => some (logForward p (t.emis 0) sites).ll
+def showAns : Ans Float → String
+  | .exc => "exc:bpp"
+  | .val x => hx x
+  | .mat m => hxs m.flatten
 
 /-! ## exact reference -/
 
@@ -84,19 +99,43 @@ def natLog (m : Nat) : Float :=
     let sh := b - 64
     Float.log (Float.ofNat (m >>> sh)) + Float.ofNat sh * Float.log 2.0
 
-/-- log of a positive rational, to ~1e-15 relative accuracy of each of the two logarithms -/
+/-- log of a positive rational -/
 def ratLog (q : Rat) : Float := natLog q.num.toNat - natLog q.den
+
+def ratToFloat (q : Rat) : Float :=
+  if q == 0 then 0.0 else
+  let s : Float := if q < 0 then -1.0 else 1.0
+  s * Float.exp (ratLog (if q < 0 then -q else q))
+
+def validBreaks (T : Nat) (bps : List Nat) : Bool :=
+  bps.all (fun b => decide (1 ≤ b) && decide (b < T)) && (bps.zip bps.tail).all (fun (a, b) => decide (a < b))
+
+def small (t : DTables) : Bool := t.n ^ t.T ≤ 3000
 
 /-- exact likelihood of the current tables: enumeration when small, else the unscaled forward
 recursion in exact arithmetic (`forward_is_path_sum`) -/
-def exactLik (t : Tables) (bps : List Nat) : Option Rat :=
+def exactLik (t : DTables) (bps : List Nat) : Option Rat :=
   let T := t.T
   if T == 0 then none else
-  let (e0, rest) := t.restQ
+  let (e0, rest) := t.emisQ
   let sites := mkSites rest bps
-  if t.n ^ T ≤ 3000 then some (pathSum t.paramsQ e0 sites)
+  if small t then some (pathSum t.paramsQ e0 sites)
   else if T ≤ 64 then some (fwdU t.paramsQ e0 sites)
   else none
+
+/-- exact posterior marginals by path enumeration: `Σ_{paths with y_i = j} weight / Σ weight` -/
+def exactPost (t : DTables) (bps : List Nat) : Option (List (List Rat)) :=
+  let T := t.T
+  if T == 0 || !small t then none else
+  let (e0, rest) := t.emisQ
+  let sites : List (Site Rat) := (true, e0) :: mkSites rest bps
+  let p := t.paramsQ
+  let paths := allPaths t.n T
+  let ws := paths.map (fun ys => (ys, pathW p 0 sites ys))
+  let tot := ws.foldl (fun a x => a + x.2) (0 : Rat)
+  if tot == 0 then none else
+  some ((List.range T).map (fun i => (List.range t.n).map (fun j =>
+    (ws.foldl (fun a x => if x.1[i]? == some j then a + x.2 else a) (0 : Rat)) / tot)))
 
 def close (a b : Float) : Bool :=
   if a.isNaN || b.isNaN then false
@@ -104,25 +143,103 @@ def close (a b : Float) : Bool :=
   else if a.isInf || b.isInf then false
   else Float.abs (a - b) ≤ 1e-9 * (if Float.abs b > 1.0 then Float.abs b else 1.0)
 
-/-- verdict on a log-likelihood answered by the implementation for object `o` -/
+/-- verdict on a log-likelihood value answered by the implementation for tables `t` -/
+def llCheck (t : DTables) (bps : List Nat) (x : Float) : String :=
+  if !t.nonneg then "-" else
+  match exactLik t bps with
+  | none => "-"
+  | some q =>
+    if q == 0 then (if x == -(1.0 / 0.0) then "ok" else "FAIL:path_sum_zero")
+    else if close x (ratLog q) then "ok" else "FAIL:path_sum"
+
+def isExc (l : List String) : Bool := match l with | [a] => a.startsWith "exc:" | _ => false
+
+/-- bit-identity of the implementation's answer with the cache-free specification -/
+def histCheck (o : Obj) (impl : List String) (spec : Ans Float) : String :=
+  if o.stale then "-" else
+  if " ".intercalate impl == showAns spec then "ok" else "FAIL:history_independent"
+
+def specOf (o : Obj) (op : Op Float) : Ans Float :=
+  let t := o.tab.model
+  match o.core with
+  | .resc r => rescSpec t r.bps op
+  | .log g => logSpec t g.bps op
+  | .low l => match op with
+    | .posterior | .d1 _ => .exc
+    | _ => .val (lowCompute t l.maxSize l.bps)
+
+def both (a b : String) : String := if a.startsWith "FAIL" then a else if b.startsWith "FAIL" then b else if a == "-" then b else a
+
 def llVerdict (o : Obj) (impl : Option (List String)) : String :=
   match impl with
   | none => "-"
-  | some [a] =>
-    if a.startsWith "exc:" then "-" else
-    match implFloat? a with
+  | some ans =>
+    if isExc ans then "-" else
+    match ans with
+    | [a] =>
+      match implFloat? a with
+      | none => "FAIL:parse"
+      | some x => both (histCheck o ans (specOf o .logLik)) (if o.stale then "-" else llCheck o.tab o.bps x)
+    | _ => "FAIL:parse"
+
+/-- posterior rows answered by the implementation -/
+def postVerdict (o : Obj) (impl : Option (List String)) (rows : Option (List Nat)) : String :=
+  match impl with
+  | none => "-"
+  | some ans =>
+    if isExc ans || o.stale then "-" else
+    match implFloats? ans with
     | none => "FAIL:parse"
-    | some x =>
-      if !o.tab.nonneg then "-" else
-      match exactLik o.tab o.bps with
-      | none => "-"
+    | some xs =>
+      let t := o.tab
+      let n := t.n
+      if xs.length % n != 0 then "FAIL:parse" else
+      let m := (List.range (xs.length / n)).map (fun i => (xs.drop (i * n)).take n)
+      if !t.nonneg || !validBreaks t.T o.bps then "-" else
+      -- double range: with emissions below 1e-100 forward entries underflow to 0 while backward entries
+      -- overflow, and the product is NaN; rounding/overflow is outside the exact-arithmetic model
+      if t.E.any (fun x => x > 0.0 && x < 1e-100) && m.any (fun r => r.any (fun x => x.isNaN || x.isInf)) then "-" else
+      match exactLik t o.bps with
       | some q =>
-        if q == 0 then (if x == -(1.0 / 0.0) then "ok" else "FAIL:path_sum_zero")
-        else if close x (ratLog q) then "ok" else "FAIL:path_sum"
-  | some _ => "FAIL:parse"
+        if q == 0 then "-" else
+        if !(m.all (fun r => r.all (fun x => x ≥ 0.0) && close (r.foldl (· + ·) 0.0) 1.0)) then "FAIL:posterior_prob" else
+        match exactPost t o.bps with
+        | none => "ok"
+        | some ex =>
+          let ex' := match rows with | none => ex | some is => is.filterMap (fun i => ex[i]?)
+          if ex'.length != m.length then "FAIL:parse" else
+          if (ex'.zip m).all (fun (er, r) => (er.zip r).all (fun (q, x) => Float.abs (x - ratToFloat q) ≤ 1e-9)) then "ok"
+          else "FAIL:posterior_marginal"
+      | none =>
+        -- too long for the exact reference: normalisation only
+        if m.all (fun r => r.all (fun x => x ≥ 0.0) && close (r.foldl (· + ·) 0.0) 1.0) then "ok"
+        else if m.any (fun r => r.any Float.isNaN) then "-"   -- likelihood underflowed to 0: posterior undefined
+        else "FAIL:posterior_prob"
+
+/-- per-site likelihoods answered by the implementation: `Σ_j posterior_i(j)·e_i(j)` of the exact marginals -/
+def siteVerdict (o : Obj) (impl : Option (List String)) (rows : Option (List Nat)) : String :=
+  match impl with
+  | none => "-"
+  | some ans =>
+    if isExc ans || o.stale then "-" else
+    match implFloats? ans with
+    | none => "FAIL:parse"
+    | some xs =>
+      let t := o.tab
+      if !t.nonneg || !validBreaks t.T o.bps then "-" else
+      if t.E.any (fun x => x > 0.0 && x < 1e-100) && xs.any (fun x => x.isNaN || x.isInf) then "-" else
+      match exactPost t o.bps with
+      | none => "-"
+      | some ex =>
+        let (e0, rest) := t.emisQ
+        let es := e0 :: rest
+        let want := (ex.zip es).map (fun (r, e) => ((List.range t.n).zip r).foldl (fun a (j, q) => a + q * e j) (0 : Rat))
+        let want' := match rows with | none => want | some is => is.filterMap (fun i => want[i]?)
+        if want'.length != xs.length then "FAIL:parse" else
+        if (want'.zip xs).all (fun (q, x) => close x (ratToFloat q) || Float.abs (x - ratToFloat q) ≤ 1e-300) then "ok" else "FAIL:site_likelihood"
 
 /-- cross-algorithm agreement on the implementation's answers (objects holding the same
-non-negative tables and break points), and the exact path sum for each of them -/
+non-negative tables and break points), and the exact path sum -/
 def agreeVerdict (os : List (Option Obj)) (impl : Option (List String)) : String :=
   match impl with
   | none => "-"
@@ -131,16 +248,20 @@ def agreeVerdict (os : List (Option Obj)) (impl : Option (List String)) : String
     let prs := (os.zip ans).filterMap (fun (o, a) => match o with | some o => some (o, a) | none => none)
     match prs with
     | [] => "-"
-    | (o0, _) :: _ =>
+    | (o0, a0) :: _ =>
       let same := prs.all (fun (o, _) => o.tab.n == o0.tab.n && o.tab.P.toList == o0.tab.P.toList && o.tab.F.toList == o0.tab.F.toList
-        && o.tab.E.toList == o0.tab.E.toList && o.bps == o0.bps)
+        && o.tab.E.toList == o0.tab.E.toList && o.bps == o0.bps && !o.stale)
       if !same || !o0.tab.nonneg then "-" else
       match prs.mapM (fun (_, a) => implFloat? a) with
       | none => "FAIL:parse"
       | some xs =>
         let x0 := xs.head!
         if !(xs.all (fun x => close x x0 && close x0 x)) then "FAIL:cross_algo"
-        else llVerdict o0 (some [prs.head!.2])
+        else
+          let hs := prs.map (fun (o, a) => histCheck o [a] (specOf o .logLik))
+          match hs.find? (·.startsWith "FAIL") with
+          | some f => f
+          | none => match implFloat? a0 with | some x => llCheck o0.tab o0.bps x | none => "FAIL:parse"
 
 /-! ## parameters -/
 
@@ -154,8 +275,7 @@ def parse2 (s : String) : Option (Nat × Nat) :=
   | _ => none
 
 /-- `some tables'` when the name is a parameter of the object -/
-def setParam (o : Obj) (name : String) (v : Float) : Option Tables :=
-  let t := o.tab
+def setParam (o : Obj) (t : DTables) (name : String) (v : Float) : Option DTables :=
   let body := (name.drop 1).toString
   if name.startsWith "p" then
     match parse2 body with
@@ -176,13 +296,21 @@ def parsePairs : List String → Option (List (String × Float))
   | a :: b :: rest => do let v ← Hex.float? b; let r ← parsePairs rest; pure ((a, v) :: r)
   | _ => none
 
-/-- recompute after a notification; on an exception the tables stay updated and the cache stale -/
-def refire (s : St) (k : String) (o : Obj) (t : Tables) (bps : List Nat) (impl : Option (List String)) : St × String × String :=
-  match compute o.algo o.chunk t bps with
-  | some ll =>
-    let o' := { o with tab := t, bps := bps, logLik := ll }
-    (s.put k o', hx ll, llVerdict o' impl)
-  | none => (s.put k { o with tab := t, bps := bps }, "exc:bpp", "-")
+/-- run one operation of the state machine of the object's class -/
+def runOp (o : Obj) (op : Op Float) : Obj × Ans Float :=
+  match o.core with
+  | .resc r => let (r', a) := r.step op; ({ o with core := .resc r' }, a)
+  | .low l => let (l', a) := l.step op; ({ o with core := .low l' }, a)
+  | .log g => let (g', a) := g.step op; ({ o with core := .log g' }, a)
+
+/-- an update (new tables or new break points) -/
+def update (s : St) (k : String) (o : Obj) (t : DTables) (op : Op Float) (impl : Option (List String)) : St × String × String :=
+  let (o1, a) := runOp { o with tab := t } op
+  match a with
+  | .exc => (s.put k { o1 with stale := true }, showAns a, "-")
+  | _ => let o2 := { o1 with stale := false }; (s.put k o2, showAns a, llVerdict o2 impl)
+
+def rowsOf (m : List (List Float)) (i : Nat) : List (List Float) := match m[i]? with | some r => [r] | none => []
 
 def step (s : St) (op : List String) (impl : Option (List String)) : St × String × String :=
   match op with
@@ -207,14 +335,19 @@ def step (s : St) (op : List String) (impl : Option (List String)) : St × Strin
   | "build" :: k :: algo :: wp :: r =>
     let t := s.stage
     if t.n == 0 || t.P.size != t.n * t.n || t.F.size != t.n || t.E.isEmpty || t.E.size % t.n != 0 then (s, "bad-stage", "-")
-    else if algo != "resc" && algo != "low" && algo != "log" then (s, "bad-op", "-")
     else
       let chunk := match r with | [c] => (nat? c).getD 0 | _ => 0
-      let o : Obj := { algo := algo, chunk := chunk, withParams := wp == "1", tab := t, bps := [], logLik := 0 }
-      if algo == "low" && chunk == 0 then (s.del k, "exc:bpp", "-") else
-      match compute algo chunk t [] with
-      | some ll => let o' := { o with logLik := ll }; (s.put k o', hx ll, llVerdict o' impl)
+      let core : Option Core := match algo with
+        | "resc" => (RescObj.build t.model).map Core.resc
+        | "low" => (LowObj.build t.model chunk).map Core.low
+        | "log" => some (Core.log (LogObj.build t.model))
+        | _ => none
+      if algo != "resc" && algo != "low" && algo != "log" then (s, "bad-op", "-") else
+      match core with
       | none => (s.del k, "exc:bpp", "-")
+      | some c =>
+        let o : Obj := { core := c, withParams := wp == "1", tab := t }
+        (s.put k o, hx o.logLik, llVerdict o impl)
   | "agree" :: ks =>
     let os := ks.map s.get?
     let out := " ".intercalate (os.map (fun o => match o with | some o => hx o.logLik | none => "none"))
@@ -228,22 +361,75 @@ def step (s : St) (op : List String) (impl : Option (List String)) : St × Strin
       | "val", [] => (s, hx (-o.logLik), "-")
       | "brk", bs =>
         match bs.mapM nat? with
-        | some bps => refire s k o o.tab bps impl
+        | some bps => update s k o o.tab (.setBreaks bps) impl
         | none => (s, "bad-op", "-")
       | "setp", [name, v] =>
         match Hex.float? v with
         | none => (s, "bad-op", "-")
         | some v =>
-          match setParam o name v with
+          match setParam o o.tab name v with
           | none => (s, "exc:notfound", "-")
-          | some t => refire s k o t o.bps impl
+          | some t => update s k o t (.setTables t.model) impl
       | "setps", r =>
         match parsePairs r with
         | none => (s, "bad-op", "-")
         | some prs =>
           -- unknown names are ignored by setParametersValues / matchParametersValues
-          let t := prs.foldl (fun t (nv : String × Float) => ((setParam { o with tab := t } nv.1 nv.2).getD t)) o.tab
-          refire s k o t o.bps impl
+          let t := prs.foldl (fun t (nv : String × Float) => ((setParam o t nv.1 nv.2).getD t)) o.tab
+          update s k o t (.setTables t.model) impl
+      | "post", [] =>
+        let (o1, a) := runOp o .posterior
+        (s.put k o1, showAns a, both (match impl with | some i => if isExc i then "-" else histCheck o i (specOf o .posterior) | none => "-") (postVerdict o impl none))
+      | "post1", [site] =>
+        match nat? site with
+        | none => (s, "bad-op", "-")
+        | some i =>
+          if i ≥ o.tab.T then (s, "bad-site", "-") else
+          match o.core with
+          | .log g =>
+            -- getHiddenStatesPosteriorProbabilitiesForASite of the log-sum class has its own iterator logic
+            let (o1, _) := runOp o .posterior
+            match o1.core with
+            | .log g1 =>
+              let row := logPostRow (g1.fw.logLik[i]?.getD []) (g1.back[i]?.getD []) g1.fw.partials[logPostIdx1 i g.bps]?
+              (s.put k o1, match row with | some r => hxs r | none => "ub", postVerdict o impl (some [i]))
+            | _ => (s, "bad-op", "-")
+          | _ =>
+            let (o1, a) := runOp o .posterior
+            let out := match a with | .mat m => hxs (rowsOf m i).flatten | _ => showAns a
+            (s.put k o1, out, postVerdict o impl (some [i]))
+      | "sl", [site] =>
+        match nat? site with
+        | none => (s, "bad-op", "-")
+        | some i =>
+          if i ≥ o.tab.T then (s, "bad-site", "-") else
+          let t := o.tab.model
+          let e : Emis Float := if i == 0 then t.e0 else (t.es[i - 1]?).getD t.e0
+          match o.core with
+          | .log g =>
+            let (o1, _) := runOp o .posterior
+            match o1.core with
+            | .log g1 =>
+              let row := logPostRow (g1.fw.logLik[i]?.getD []) (g1.back[i]?.getD []) g1.fw.partials[logPostIdx1 i g.bps]?
+              (s.put k o1, match row with | some r => hx (siteLik t.p r e) | none => "ub", siteVerdict o impl (some [i]))
+            | _ => (s, "bad-op", "-")
+          | _ =>
+            let (o1, a) := runOp o .posterior
+            let out := match a with | .mat m => (match m[i]? with | some r => hx (siteLik t.p r e) | none => "bad-site") | _ => showAns a
+            (s.put k o1, out, siteVerdict o impl (some [i]))
+      | "sls", [] =>
+        let t := o.tab.model
+        let (o1, a) := runOp o .posterior
+        let out := match a with | .mat m => hxs ((m.zip (t.e0 :: t.es)).map (fun (r, e) => siteLik t.p r e)) | _ => showAns a
+        (s.put k o1, out, siteVerdict o impl none)
+      | "d1", [var] =>
+        let (o1, a) := runOp o (.d1 var)
+        match o.core with
+        | .log _ => (s, match impl with | some i => " ".intercalate i | none => "unmodelled", "-")   -- not modelled: echo
+        | _ => (s.put k o1, showAns a,
+            match impl with
+            | some i => if isExc i || var == "" then "-" else (match o.core with | .resc _ => histCheck o i (specOf o (.d1 var)) | _ => "-")
+            | none => "-")
       | _, _ => (s, "bad-op", "-")
   | _ => (s, "bad-op", "-")
 
